@@ -360,6 +360,17 @@ fn build_any<'t>(pats: &'t [String], mode: &str) -> Result<Any<'t>, wax::BuildEr
             }
             wax::any(inner)
         },
+        "nested_pairs" => {
+            // any([any(first half), any(second half)]): sibling nested combinators with several
+            // patterns each
+            let (head, tail) = pats.split_at(pats.len() / 2);
+            let mut inner = Vec::new();
+            if !head.is_empty() {
+                inner.push(wax::any(head.iter().map(|p| p.as_str()))?);
+            }
+            inner.push(wax::any(tail.iter().map(|p| p.as_str()))?);
+            wax::any(inner)
+        },
         "nested_glob" => {
             let mut inner = Vec::new();
             for p in pats {
